@@ -158,6 +158,18 @@ def r_guard(A, ctx, scope, rule="R-GUARD"):
             if what is None and missing:
                 what = (f"accepts the extrapolated {sorted(ren)} without its paired "
                         f"{missing}: iterate and model fit (gradient) go out of sync")
+            # a candidate that is recomputed from the candidate coefficients (matrix product
+            # template) must not read the current iterate
+            if what is None:
+                cur_names = set(ren)
+                for accv in set(ren.values()):
+                    for dv_ in _defs_in(f.node, accv):
+                        if any(isinstance(x, ast.BinOp) and isinstance(x.op, ast.MatMult) for x in ast.walk(dv_)):
+                            bad = names_in(dv_) & cur_names
+                            if bad:
+                                what = (f"the candidate `{accv} = {norm_src(dv_)[:70]}` is built from the "
+                                        f"current {sorted(bad)} instead of the extrapolated coefficients: "
+                                        "after acceptance iterate and model fit disagree")
             # objective of the current point computed from the current arrays (fresh)
             if what is None:
                 for m_nd in cfg.stmts():
